@@ -15,10 +15,23 @@ META = dict(
           "allow_position_zero, each parsed and compared field by field with the reference genotypes; one mask-form "
           "metamorphism block (8 forms x allow_position_zero default/True x first site masked/unmasked); one "
           "masked-site independence pair. A case is distinct by the sha1 of its row tuples and non-trivial when it "
-          "has at least one site and one sample."),
+          "has at least one site and one sample. Audit round: every call of the random block goes through one of 9 "
+          "entries (as_vcf, write_vcf into StringIO / text file / TextIOWrapper / write-only object / sys.stdout / "
+          "output=..., tskit.vcf.VcfWriter written once or twice) and through randomly chosen argument containers "
+          "(ploidy numpy scalars, individuals as tuple / range / int8..uint64 / read-only / strided arrays, names as "
+          "tuple / str / object arrays, 0/1 flags, defaults spelled out); 17 mask forms including true entries that "
+          "are not 1 (2, -1, 256, 2^32, 0.5, nan), read-only / strided / object arrays; 20 position transforms "
+          "including the legacy function itself, non-monotone, negative, 2^40-sized, tuple, int32 and 2-D results; "
+          "individuals listed twice or only valid after 32-bit wrapping; callable masks unusable at masked sites; "
+          "masked sites replaced by alleles containing tab / newline / comma; coordinates scaled by 2^24, 2^31, 2^40 "
+          "and 2^-3 (k % 16 == 3); schema-coded (JSON / struct) metadata on individuals, nodes, sites, mutations "
+          "(k % 8 == 5); tree sequences reloaded from a file (k % 16 == 9); and by case index the families big "
+          "(k % 50 == 13: 66..1026 samples, up to 513 individuals, ploidy up to 1026), huge (k % 500 == 11: "
+          "32 770 / 65 538 / 32 770 / 16 386 samples in turn) and manysites (k % 150 == 31: 130..700 sites)."),
     REQUIRED=["vcf:compared", "vcf:nonempty-compared", "vcf:error-predicted", "maskform:site-form",
               "maskform:sample-form", "masked-independence:pairs", "masked-independence:text-compared",
-              "vcf:write_vcf-vs-as_vcf"],
+              "vcf:write_vcf-vs-as_vcf", "vcf:compared-through-other-entry", "vcf:compared-with-argument-forms",
+              "big:cases", "huge:cases", "manysites:cases"],
     ASSUMPTIONS=ASSUME_COMMON + [
         "mutation parents in the generated tables are the ones computed by the reference model",
         "alleles contain no tab, newline or comma (the VCF text would be unparseable by construction)",
